@@ -6,6 +6,8 @@
   reactors additionally keep `EntityWorldLocal<T>` on the entity; `EntityLocal` reads the local data of the reaction's
   source entity, guarded by the entity-reaction tracker.
 -/
+import Cobweb.Proofs.Boot
+import Cobweb.Proofs.ScenarioInit
 import Cobweb.Proofs.Kill
 import Cobweb.Theorems.C07
 import Cobweb.Theorems.C06
@@ -151,17 +153,17 @@ example : readLocal exSt 0 = some (2, 9) := local_of_source exSt 0 2 9 rfl rfl r
     kind `entReact src rt` (or an entity event aimed at `src`) reaches its run, the entity-reaction tracker is reacting, its
     source is `src` and its system is the command's target — so `readLocal` (what `EntityLocal` returns) is the data attached
     to `src` (`run_reads_attached_data`). No hypothesis on what else is pending (finding F1 is repaired). -/
-theorem run_names_its_entity (p : Prog) (h : Hist) {s : St} (hr : Reach p h ({} : St) s) {sys idx src : Nat} {rt : RType}
+theorem run_names_its_entity (p : Prog) (h : Hist) {s : St} {s0 : St} (hI0 : CoreInv s0) (hr : Reach p h s0 s) {sys idx src : Nat} {rt : RType}
     {rest : List Frame} (hst : s.stack = Frame.runnerLookup sys (.entReact src rt) idx :: rest) :
     let s1 := setupK { s with stack := rest, storage := upd s.storage sys (some false), counter := s.counter + 1 } (.entReact src rt) sys
     s1.trkEnt.reacting = true ∧ s1.trkEnt.curSrc = src ∧ s1.trkEnt.curSys = sys := by
   intro s1
-  obtain ⟨hc, hf⟩ := C03.C03_all p h hr hst
+  obtain ⟨hc, hf⟩ := C03.C03_all p h hI0 hr hst
   simp only [claimedOwn, Bool.and_eq_true, beq_iff_eq] at hc
   have hre : s1.trkEnt.reacting = true := hf.2.2.1
   refine ⟨hre, hc.1, ?_⟩
   -- the tracker was idle before `setup`, so `start` did claim an entry: the current system is the command's
-  obtain ⟨_, _, f⟩ := all_reach p h ctl_default once_default flag_default hr
+  obtain ⟨_, _, f⟩ := all_reach p h hI0.inv5.ctl hI0.inv5.once hI0.inv5.flag hr
   have htop := f.top; rw [hst] at htop
   have hi : Fl s = (false, false, false, false) := htop.1
   simp only [Fl, Prod.mk.injEq] at hi
@@ -173,5 +175,23 @@ theorem run_names_its_entity (p : Prog) (h : Hist) {s : St} (hr : Reach p h ({} 
       show s.trkEnt.start sys src rt = s.trkEnt
       exact TrkEnt.start_none s.trkEnt sys src rt hm
     rw [this, hi.2.2.1] at hre; cases hre
+
+/-- **The same, for the executions the correspondence check runs**: for every scenario — its world reactors and entity
+    world reactors spawned as system commands before the first operation, as the harness does while building the `App` —
+    every state reached from the scenario's initial state satisfies every invariant of the model, and so the run of an
+    entity world reactor names the entity that caused it. (`scenario_start`: the invariants hold in the initial state of
+    every scenario; every whole-execution theorem of the eighteen property files takes any such start state.) -/
+theorem scenario_run_names_its_entity (sc : Scenario) {s : St} (hr : Reach sc.prog sc.hist sc.init s) {sys idx src : Nat} {rt : RType}
+    {rest : List Frame} (hst : s.stack = Frame.runnerLookup sys (.entReact src rt) idx :: rest) :
+    let s1 := setupK { s with stack := rest, storage := upd s.storage sys (some false), counter := s.counter + 1 } (.entReact src rt) sys
+    s1.trkEnt.reacting = true ∧ s1.trkEnt.curSrc = src ∧ s1.trkEnt.curSys = sys :=
+  run_names_its_entity sc.prog sc.hist (scenario_start sc).core hr hst
+
+theorem scenario_states_satisfy_all_invariants (sc : Scenario) {s : St} (hr : Reach sc.prog sc.hist sc.init s) : AllInv s :=
+  scenario_invariants sc hr
+
+/-- Non-vacuity: a scenario with one world reactor and one entity world reactor starts with two live system commands. -/
+example : (({ wrs := [0], ewrs := [0] } : Scenario).init.nextEnt = 2) ∧ ({ wrs := [0], ewrs := [0] } : Scenario).init.storage 1 = some true ∧
+    ({ wrs := [0], ewrs := [0] } : Scenario).init.ewrSys 0 = 1 := by decide
 
 end Cobweb.C16
